@@ -301,5 +301,11 @@ def r5_phase_dispatch(chk: Check) -> None:
     chk.decide(order == members if order else None, "C11.R5", plan, "phases listed in declaration order", f"plan order {order} differs from the fixed phase order {members}", plan.loc())
 
 
+def r7_drain(chk: Check) -> None:
+    from . import shared
+
+    shared.drain_before_leave_rule(chk, "C11.R7")
+
+
 def rules(tier: str) -> list:  # type: ignore[type-arg]
-    return [r1r2_grammar, r2b_state_machine_hooks, r3_ids, r4_status, r5_phase_dispatch]
+    return [r1r2_grammar, r2b_state_machine_hooks, r3_ids, r4_status, r5_phase_dispatch, r7_drain]
